@@ -15,3 +15,9 @@ package maintenance
 //@   modifies nothing
 //@ func InitDBTry [C18]
 //@   at Conn).Exec creates-the-database-on-the-cluster: arg1 == "CREATE DATABASE IF NOT EXISTS `" + dbName + "` " + (clusterName != "" ? "ON CLUSTER `" + clusterName + "`" : "") + " " + ""
+
+// Opening and closing a connection sends no statement.
+//@ func ConnectV2
+//@   modifies nothing
+//@ iface (github.com/ClickHouse/clickhouse-go/v2.Conn).Close()
+//@   modifies nothing
